@@ -298,7 +298,7 @@ def run(out):
     hl = sorted(hists)
     del hists
     gc.collect()
-    if not quick and len(hl) > 130000:
+    if not quick and len(hl) > 170000:
         raise common.MachineryError('unexpected number of histories %d' % len(hl))
     kinds = sorted(set(k for h in hl for k in h))
     _FRESH.update(_fresh_results(kinds))
